@@ -1,5 +1,6 @@
 import PsV.Proofs.Walk
 import PsV.Proofs.DerivSpec
+import PsV.Proofs.DerivK
 /-! Assembly: `ndsplineeval` (value mode) = `specEval`, for any number of dimensions. -/
 namespace PsV
 variable {α : Type} [Field α] [LinearOrder α]
@@ -24,13 +25,20 @@ def AllOK : List (Dim α) → List α → List Nat → Prop
   | d :: ds, x :: xs, c :: cs => (d.WF ∧ PointOK d x c) ∧ AllOK ds xs cs
   | _, _, _ => False
 
-/-- value or single derivative (what the derivative bitmask selects) -/
-def FirstOrder (m : BasisMode) : Prop := m = .value ∨ m = .deriv1
+/-- the coordinate is not a knot of the dimension -/
+def KnotFree (d : Dim α) (x : α) : Prop := ∀ j : Int, 0 ≤ j → j < d.nknots → x ≠ d.knots j
 
-def AllFirstOrder : List (Dim α) → List BasisMode → Prop
-  | [], [] => True
-  | _ :: ds, m :: ms => FirstOrder m ∧ AllFirstOrder ds ms
-  | _, _ => False
+/-- modes covered by the theorem: value, single derivative, and arbitrary-order derivatives (the
+recursive routine, right-continuous) below `knots[naxes]` or away from the knots -/
+def ModeOK (d : Dim α) (x : α) : BasisMode → Prop
+  | .value => True
+  | .deriv1 => True
+  | .derivK k => 1 ≤ k ∧ (x < d.knots ((d.nknots:Int) - d.order - 1) ∨ KnotFree d x)
+
+def AllModesOK : List (Dim α) → List α → List BasisMode → Prop
+  | [], [], [] => True
+  | d :: ds, x :: xs, m :: ms => ModeOK d x m ∧ AllModesOK ds xs ms
+  | _, _, _ => False
 
 def dimW (d : Dim α) (x : α) (c : Nat) (m : BasisMode) : DimW α :=
   ⟨d.stride, d.naxes, c - d.order, d.order + 1, fun i => Bsel d x (derivOrder m) i⟩
@@ -53,14 +61,60 @@ theorem Bsel_deriv1 (d : Dim α) (x : α) (hwf : d.WF) (i : Nat) :
     have := hwf.len; rw [hwf.naxes_eq]; omega
   simp only [Bsel, selInd, of_lt, hn, decide_eq_true_eq]
 
+theorem Bsel_any (d : Dim α) (x : α) (hwf : d.WF) (k : Nat) (i : Nat) :
+    Bsel d x k i = Dind (if x < d.knots ((d.nknots:Int) - d.order - 1) then indR d.knots x else indL d.knots x)
+      d.knots x k d.order i := by
+  have hn : ((d.naxes : Nat) : Int) = (d.nknots:Int) - d.order - 1 := by
+    have := hwf.len; rw [hwf.naxes_eq]; omega
+  simp only [Bsel, selInd, of_lt, hn, decide_eq_true_eq]
+
+/-- both indicators single out the interval the margin loops settled on -/
+theorem shift_indicators (d : Dim α) (x : α) (c : Nat) (hc : CenterOK d.knots d.nknots d.order x c)
+    (hs : ShiftOK d.knots d.nknots d.order x c (marginShift d.knots d.nknots x c d.order)) :
+    (∀ j : Int, 0 ≤ j → j ≤ (d.nknots:Int) - 2 →
+      ((if x < d.knots ((d.nknots:Int) - d.order - 1) then indR d.knots x else indL d.knots x) j = true ↔
+        j = marginShift d.knots d.nknots x c d.order)) ∧
+    ((x < d.knots ((d.nknots:Int) - d.order - 1) ∨ KnotFree d x) →
+      ∀ j : Int, 0 ≤ j → j ≤ (d.nknots:Int) - 2 →
+        (indR d.knots x j = true ↔ j = marginShift d.knots d.nknots x c d.order)) := by
+  obtain ⟨hl0, hl1, hb, _, _⟩ := hs
+  constructor
+  · rcases hb with ⟨hx, b1, b2⟩ | ⟨hx, b1, b2⟩
+    · rw [if_pos hx]; exact indR_iff d.knots x d.nknots _ hc.mono hl0 hl1 b1 b2
+    · rw [if_neg (not_lt.mpr hx)]; exact indL_iff d.knots x d.nknots _ hc.mono hl0 hl1 b1 b2
+  · intro hcond
+    rcases hb with ⟨hx, b1, b2⟩ | ⟨hx, b1, b2⟩
+    · exact indR_iff d.knots x d.nknots _ hc.mono hl0 hl1 b1 b2
+    · rcases hcond with h | h
+      · exact absurd (lt_of_lt_of_le h hx) (lt_irrefl _)
+      · have hne : x ≠ d.knots (marginShift d.knots d.nknots x c d.order + 1) := h _ (by omega) (by omega)
+        exact indR_iff d.knots x d.nknots _ hc.mono hl0 hl1 (le_of_lt b1) (lt_of_le_of_ne b2 hne)
+
 theorem localRow_spec (d : Dim α) (x : α) (c : Nat) (m : BasisMode) (hwf : d.WF) (h : PointOK d x c)
-    (hm : FirstOrder m) :
+    (hm : ModeOK d x m) :
     localRow d x c m = (List.range' (c - d.order) (d.order + 1)).map (fun i => Bsel d x (derivOrder m) i) := by
   obtain ⟨hc, hnd⟩ := h
   apply List.ext_getElem?
   intro j
-  rcases hm with rfl | rfl
-  · by_cases hj : j ≤ d.order
+  cases m with
+  | derivK k =>
+    obtain ⟨hk, hcond⟩ := hm
+    have hs := marginShift_spec d.knots d.nknots d.order x c hc hnd
+    obtain ⟨hsel, hR⟩ := shift_indicators d x c hc hs
+    have hlo := hc.lo; have hhi := hc.hi
+    simp only [localRow, derivOrder, List.getElem?_map]
+    by_cases hj : j < d.order + 1
+    · rw [List.getElem?_range hj, List.getElem?_range' (by omega)]
+      simp only [Option.map_some, of_rnd]
+      rw [bsplineDerivRec_eq_Dind _ _ _ _ _ hk, Bsel_any d x hwf]
+      have e : (((c - d.order + 1 * j : Nat)) : Int) = (c:Int) - d.order + j := by push_cast [Nat.cast_sub hlo]; ring
+      rw [e]
+      rw [Dind_eq_DkBp d.knots x d.nknots _ _ (hR hcond) k d.order _ (by omega) (by omega),
+        Dind_eq_DkBp d.knots x d.nknots _ _ hsel k d.order _ (by omega) (by omega)]
+    · rw [List.getElem?_eq_none (by simp; omega), List.getElem?_eq_none (by simp; omega)]
+      rfl
+  | value =>
+    by_cases hj : j ≤ d.order
     · simp only [localRow, derivOrder]
       rw [bsplvbSimple_spec d.knots d.nknots d.order x c hc hnd j hj]
       rw [List.getElem?_map, List.getElem?_range' (by omega)]
@@ -72,7 +126,8 @@ theorem localRow_spec (d : Dim α) (x : α) (c : Nat) (m : BasisMode) (hwf : d.W
       ring
     · have l1 : (localRow d x c .value).length = d.order + 1 := bsplvbSimple_length d.knots d.nknots d.order x c hc hnd
       rw [List.getElem?_eq_none (by omega), List.getElem?_eq_none (by simp; omega)]
-  · obtain ⟨l1, hv⟩ := bsplineDerivNonzero_spec d.knots d.nknots d.order x c hc hnd
+  | deriv1 =>
+    obtain ⟨l1, hv⟩ := bsplineDerivNonzero_spec d.knots d.nknots d.order x c hc hnd
     by_cases hj : j ≤ d.order
     · simp only [localRow, derivOrder]
       rw [hv j hj, List.getElem?_map, List.getElem?_range' (by omega)]
@@ -86,7 +141,7 @@ theorem localRow_spec (d : Dim α) (x : α) (c : Nat) (m : BasisMode) (hwf : d.W
       rw [List.getElem?_eq_none (by omega), List.getElem?_eq_none (by simp; omega)]
 
 theorem dimW_OK (d : Dim α) (x : α) (c : Nat) (m : BasisMode) (hwf : d.WF) (h : PointOK d x c)
-    (hm : FirstOrder m) : (dimW d x c m).OK := by
+    (_hm : ModeOK d x m) : (dimW d x c m).OK := by
   obtain ⟨hc, hnd⟩ := h
   have hlo := hc.lo; have hhi := hc.hi; have hlen := hwf.len
   have hN : d.naxes = d.nknots - d.order - 1 := hwf.naxes_eq
@@ -113,26 +168,11 @@ theorem dimW_OK (d : Dim α) (x : α) (c : Nat) (m : BasisMode) (hwf : d.WF) (h 
     rcases hb with ⟨hx, b1, b2⟩ | ⟨hx, b1, b2⟩
     · rw [if_pos hx]; exact indR_iff d.knots x d.nknots _ hc.mono hl0 hl1 b1 b2
     · rw [if_neg (not_lt.mpr hx)]; exact indL_iff d.knots x d.nknots _ hc.mono hl0 hl1 b1 b2
-  rcases hm with rfl | rfl
-  · simp only [derivOrder]
-    rw [Bsel_value d x hwf, Bind_eq_Bp d.knots x d.nknots _ _ hind d.order _ hidx0 hidx1]
-    exact Bp_zero_of_not_mem _ _ _ _ _ hnot
-  · simp only [derivOrder]
-    rw [Bsel_deriv1 d x hwf]
-    by_cases ho : d.order = 0
-    · rw [ho]; simp [Dind]
-    · obtain ⟨k, hk⟩ : ∃ k, d.order = k + 1 := ⟨d.order - 1, by omega⟩
-      have key : ∀ (n : Nat), n = k + 1 →
-          Dind (if x < d.knots ((d.nknots:Int) - d.order - 1) then indR d.knots x else indL d.knots x) d.knots x 1 n i
-            = DBp d.knots x (marginShift d.knots d.nknots x c d.order) k i := by
-        intro n hn
-        subst hn
-        exact Dind_one_eq_DBp d.knots x d.nknots _ _ hind k _ hidx0 (by rw [hk] at hidx1; push_cast at hidx1 ⊢; omega)
-      rw [key d.order hk]
-      exact DBp_zero_of_not_mem _ _ _ _ _ (by rw [hk] at hnot; push_cast at hnot ⊢; omega)
+  rw [Bsel_any d x hwf, Dind_eq_DkBp d.knots x d.nknots _ _ hind (derivOrder m) d.order _ hidx0 hidx1]
+  exact DkBp_zero_of_not_mem _ _ _ _ _ _ hnot
 
 theorem rows_eq_winRows : ∀ (ds : List (Dim α)) (xs : List α) (cs : List Nat) (ms : List BasisMode),
-    AllOK ds xs cs → AllFirstOrder ds ms →
+    AllOK ds xs cs → AllModesOK ds xs ms →
     rows ds xs cs ms = winRows (dimWs ds xs cs ms) ∧
     specRows ds xs ms = fullRows (dimWs ds xs cs ms) ∧
     startPos ds cs = winOff (dimWs ds xs cs ms) ∧
@@ -142,7 +182,7 @@ theorem rows_eq_winRows : ∀ (ds : List (Dim α)) (xs : List α) (cs : List Nat
   | nil =>
     intro xs cs ms h hm
     cases xs <;> cases cs <;> simp [AllOK] at h
-    cases ms <;> simp [AllFirstOrder] at hm
+    cases ms <;> simp [AllModesOK] at hm
     simp [rows, specRows, startPos, dimWs, winRows, fullRows, winOff]
   | cons d ds ih =>
     intro xs cs ms h hm
@@ -153,7 +193,7 @@ theorem rows_eq_winRows : ∀ (ds : List (Dim α)) (xs : List α) (cs : List Nat
       | nil => simp [AllOK] at h
       | cons c cs =>
         cases ms with
-        | nil => simp [AllFirstOrder] at hm
+        | nil => simp [AllModesOK] at hm
         | cons m ms =>
           obtain ⟨⟨hwf, hp⟩, hrest⟩ := h
           obtain ⟨hm1, hmrest⟩ := hm
@@ -224,48 +264,61 @@ theorem AllOK_lengths : ∀ (ds : List (Dim α)) (xs : List α) (cs : List Nat),
         simp only [List.length_cons]
         omega
 
-theorem AllFirstOrder_length : ∀ (ds : List (Dim α)) (ms : List BasisMode), AllFirstOrder ds ms → ds.length = ms.length := by
+theorem AllModesOK_length : ∀ (ds : List (Dim α)) (xs : List α) (ms : List BasisMode), AllModesOK ds xs ms → ds.length = ms.length := by
   intro ds
   induction ds with
-  | nil => intro ms h; cases ms <;> simp [AllFirstOrder] at h ⊢
+  | nil => intro xs ms h; cases xs <;> cases ms <;> simp [AllModesOK] at h ⊢
   | cons d ds ih =>
-    intro ms h
-    cases ms with
-    | nil => simp [AllFirstOrder] at h
-    | cons m ms => simp only [List.length_cons]; rw [ih ms h.2]
+    intro xs ms h
+    cases xs with
+    | nil => simp [AllModesOK] at h
+    | cons x xs =>
+      cases ms with
+      | nil => simp [AllModesOK] at h
+      | cons m ms => simp only [List.length_cons]; rw [ih xs ms h.2]
 
-/-- evaluation with any value / single-derivative mode list = specification sum -/
+/-- evaluation with any supported mode list = specification sum -/
 theorem evalModes_eq_specEval (T : Table α) (xs : List α) (cs : List Nat) (ms : List BasisMode)
-    (hok : AllOK T.dims xs cs) (hms : AllFirstOrder T.dims ms) (hstride : lastStrideOne T.dims) :
+    (hok : AllOK T.dims xs cs) (hms : AllModesOK T.dims xs ms) (hstride : lastStrideOne T.dims) :
     evalModes T xs cs ms = specEval T xs ms := by
   obtain ⟨r1, r2, r3, r4⟩ := rows_eq_winRows T.dims xs cs ms hok hms
   obtain ⟨l1, l2⟩ := AllOK_lengths T.dims xs cs hok
   unfold evalModes specEval
-  have hl := rows_lastStride T.dims xs cs ms l1 l2 (AllFirstOrder_length _ _ hms) hstride
+  have hl := rows_lastStride T.dims xs cs ms l1 l2 (AllModesOK_length _ _ _ hms) hstride
   rw [walk_eq T.coef _ hl, r1, r2, r3, specSum_window T.coef _ r4]
   simp
 
-theorem allFirstOrder_replicate_value : ∀ (ds : List (Dim α)), AllFirstOrder ds (List.replicate ds.length .value) := by
+theorem allModesOK_replicate_value : ∀ (ds : List (Dim α)) (xs : List α), ds.length = xs.length →
+    AllModesOK ds xs (List.replicate ds.length .value) := by
   intro ds
   induction ds with
-  | nil => trivial
-  | cons d ds ih => exact ⟨Or.inl rfl, ih⟩
+  | nil => intro xs h; cases xs <;> simp at h; trivial
+  | cons d ds ih =>
+    intro xs h
+    cases xs with
+    | nil => simp at h
+    | cons x xs => exact ⟨trivial, ih xs (by simpa using h)⟩
 
-theorem allFirstOrder_maskModes (ds : List (Dim α)) (mask : Nat) : AllFirstOrder ds (maskModes ds.length mask) := by
+theorem allModesOK_maskModes (ds : List (Dim α)) (xs : List α) (hl : ds.length = xs.length) (mask : Nat) :
+    AllModesOK ds xs (maskModes ds.length mask) := by
   unfold maskModes
-  suffices h : ∀ (ds : List (Dim α)) (k : Nat), AllFirstOrder ds ((List.range' k ds.length).map fun n => if mask.testBit n then BasisMode.deriv1 else BasisMode.value) by
-    have := h ds 0
+  suffices h : ∀ (ds : List (Dim α)) (xs : List α) (k : Nat), ds.length = xs.length →
+      AllModesOK ds xs ((List.range' k ds.length).map fun n => if mask.testBit n then BasisMode.deriv1 else BasisMode.value) by
+    have := h ds xs 0 hl
     rwa [← List.range_eq_range'] at this
   intro ds
   induction ds with
-  | nil => intro k; trivial
+  | nil => intro xs k h; cases xs <;> simp at h; trivial
   | cons d ds ih =>
-    intro k
-    simp only [List.length_cons, List.range'_succ, List.map_cons]
-    refine ⟨?_, ih (k+1)⟩
-    by_cases hb : mask.testBit k = true
-    · simp [hb, FirstOrder]
-    · simp [hb, FirstOrder]
+    intro xs k h
+    cases xs with
+    | nil => simp at h
+    | cons x xs =>
+      simp only [List.length_cons, List.range'_succ, List.map_cons]
+      refine ⟨?_, ih xs (k+1) (by simpa using h)⟩
+      by_cases hb : mask.testBit k = true
+      · simp [hb, ModeOK]
+      · simp [hb, ModeOK]
 
 /-- value evaluation = specification sum, given per-dimension facts about the centres -/
 theorem ndsplineeval_eq_specEval (T : Table α) (xs : List α) (cs : List Nat)
@@ -273,13 +326,13 @@ theorem ndsplineeval_eq_specEval (T : Table α) (xs : List α) (cs : List Nat)
     ndsplineeval T xs cs 0 = specEval T xs (List.replicate T.dims.length .value) := by
   unfold ndsplineeval
   rw [maskModes_zero]
-  exact evalModes_eq_specEval T xs cs _ hok (allFirstOrder_replicate_value _) hstride
+  exact evalModes_eq_specEval T xs cs _ hok (allModesOK_replicate_value _ _ (AllOK_lengths _ _ _ hok).1) hstride
 
 /-- bitmask-derivative evaluation = specification sum with the knot-difference derivative formula in
 the selected dimensions -/
 theorem ndsplineeval_mask_eq_specEval (T : Table α) (xs : List α) (cs : List Nat) (mask : Nat)
     (hok : AllOK T.dims xs cs) (hstride : lastStrideOne T.dims) :
     ndsplineeval T xs cs mask = specEval T xs (maskModes T.dims.length mask) :=
-  evalModes_eq_specEval T xs cs _ hok (allFirstOrder_maskModes _ _) hstride
+  evalModes_eq_specEval T xs cs _ hok (allModesOK_maskModes _ _ (AllOK_lengths _ _ _ hok).1 _) hstride
 
 end PsV
